@@ -1,1 +1,181 @@
-import GeomV.C11.Spec
+import GeomV.C11.LemmasTree
+/-
+C11 — property theorems.  All of them hold for ARBITRARY in-range choice functions `H`
+(`Heur.InRange`), hence for the Go heuristics (`C11_goHeur_inRange`), for their floating-point
+evaluation, and for any retuning of them; for all objects with decidable equality, all boxes, all
+branching parameters `1 ≤ MinChildren`, `2 ≤ MaxChildren` (this includes the property's
+`2 ≤ min ≤ max/2`), all histories of any length.
+-/
+set_option linter.unusedVariables false
+set_option linter.unusedSimpArgs false
+namespace GeomV.C11
+variable {O : Type}
+
+/-- The invariant carried through histories: the property's `WF` (balance, `Depth` = leaf depth,
+stored levels, exact envelopes, fan-out ≤ Max, `Size` = number of stored objects) plus the fact
+that makes the code panic-free: a non-leaf root has at least two entries. -/
+structure Tree.Inv [Bounded O] (t : Tree O) : Prop where
+  wf : t.WF = true
+  root2 : t.root.leaf = false → 2 ≤ t.root.entries.length
+  minC : 1 ≤ t.minC
+  maxC : 2 ≤ t.maxC
+
+theorem Tree.WF_iff [Bounded O] (t : Tree O) :
+    t.WF = true ↔ wfNode t.maxC t.height t.root = true ∧ t.size = t.abs.length := by
+  simp [Tree.WF]
+
+/-- **C11_init** — `NewTree` is well-formed and empty (Size 0, Depth 1). -/
+theorem C11_init [Bounded O] (minC maxC : Nat) (h1 : 1 ≤ minC) (h2 : 2 ≤ maxC) :
+    (newTree minC maxC : Tree O).Inv ∧ (newTree minC maxC : Tree O).abs = [] ∧
+      (newTree minC maxC : Tree O).size = 0 ∧ (newTree minC maxC : Tree O).depth = 1 := by
+  refine ⟨⟨?_, by simp [newTree, Node.leaf], h1, h2⟩, by simp [newTree, Tree.abs, Node.objs_mk], rfl, rfl⟩
+  rw [Tree.WF_iff]
+  refine ⟨?_, by simp [newTree, Tree.abs, Node.objs_mk]⟩
+  simp only [newTree]; rw [wfNode_mk]; simp
+
+/-- the decidable "share a point" test is the existence of a common point -/
+theorem C11_sharePoint_iff (a b : Box) : sharePointB a b = true ↔ sharePoint a b := by
+  unfold sharePointB sharePoint Box.valid Box.has
+  simp only [Bool.and_eq_true, decide_eq_true_eq]
+  constructor
+  · rintro ⟨⟨⟨⟨⟨⟨h1, h2⟩, h3, h4⟩, h5⟩, h6⟩, h7⟩, h8⟩
+    refine ⟨max a.minX b.minX, max a.minY b.minY, ⟨le_max_left _ _, max_le h1 h6, le_max_left _ _, max_le h2 h8⟩,
+      ⟨le_max_right _ _, max_le h5 h3, le_max_right _ _, max_le h7 h4⟩⟩
+  · rintro ⟨x, y, ⟨a1, a2, a3, a4⟩, ⟨b1, b2, b3, b4⟩⟩
+    refine ⟨⟨⟨⟨⟨⟨?_, ?_⟩, ?_, ?_⟩, ?_⟩, ?_⟩, ?_⟩, ?_⟩ <;> linarith
+
+/-- **C11_intersects_iff** — geom.go `intersect` on boxes that contain a point is exactly "the two
+boxes share a point" -/
+theorem C11_intersects_iff (a b : Box) (ha : a.valid = true) (hb : b.valid = true) :
+    a.intersect b = true ↔ sharePoint a b := by
+  rw [← C11_sharePoint_iff, intersect_iff]
+  unfold sharePointB
+  simp only [Bool.and_eq_true, decide_eq_true_eq, ha, hb, true_and]
+  tauto
+
+/-- **C11_search** — on a well-formed tree `SearchIntersect(q)` never panics and returns exactly
+the stored objects (with multiplicity; even in storage order) whose boxes share a point with `q`:
+the brute-force scan of `Spec.specSearch`.  (`q` and the object boxes contain a point.) -/
+theorem C11_search [Bounded O] (t : Tree O) (hwf : t.WF = true) (q : Box) (hq : q.valid = true)
+    (hobj : ∀ o ∈ t.abs, (Bounded.bounds o).valid = true) :
+    t.search q = .ok (specSearch t.abs q) ∧ ∀ o, o ∈ specSearch t.abs q ↔ (o ∈ t.abs ∧ sharePoint q (Bounded.bounds o)) := by
+  rw [Tree.WF_iff] at hwf
+  constructor
+  · unfold Tree.search
+    rw [searchNode_spec q t.root hwf.1]
+    congr 1
+    unfold specSearch Tree.abs
+    apply List.filter_congr
+    intro o ho
+    have hv := hobj o ho
+    rw [Bool.eq_iff_iff, C11_intersects_iff _ _ hv hq, C11_sharePoint_iff]
+    unfold sharePoint; constructor <;> (rintro ⟨x, y, h1, h2⟩; exact ⟨x, y, h2, h1⟩)
+  · intro o
+    simp [specSearch, C11_sharePoint_iff]
+
+/-- **C11_insert** — `Insert` on a tree satisfying the invariant never panics, re-establishes the
+invariant and adds exactly the object (multiset semantics); Size grows by one. -/
+theorem C11_insert [Bounded O] {H : Heur} (hH : H.InRange) (t : Tree O) (hI : t.Inv) (o : O) :
+    ∃ t', t.insert H o = .ok t' ∧ t'.Inv ∧ t'.abs.Perm (o :: t.abs) ∧ t'.size = t.size + 1 ∧
+      t'.minC = t.minC ∧ t'.maxC = t.maxC := by
+  obtain ⟨hwf, hr2, hmin, hmax⟩ := hI
+  rw [Tree.WF_iff] at hwf
+  obtain ⟨hw, hsz⟩ := hwf
+  have hlev := wfNode_level hw
+  obtain ⟨t1, h1, h2, h3, h4, h5, h6, h7, h8, h9⟩ :=
+    insertEntry_spec hH t hmax hw 1 (.obj (Bounded.bounds o) o) (Nat.le_refl _) hlev.2.1 ⟨rfl, rfl⟩
+      (fun hlt => by
+        have : t.root.leaf = false := by
+          cases hl : t.root.leaf with
+          | false => rfl
+          | true => have := hlev.2.2.1.mp hl; omega
+        have := hr2 this
+        intro h0; rw [h0] at this; simp at this)
+  have hp : t1.abs.Perm (o :: t.abs) := by
+    refine h8.trans ?_
+    simp only [Entry.objs]
+    exact List.perm_append_comm
+  refine ⟨{ t1 with size := t1.size + 1 }, ?_, ⟨?_, ?_, by simpa [h4] using hmin, by simpa [h3] using hmax⟩,
+    hp, by simp [h5], h4, h3⟩
+  · simp only [Tree.insert, h1, bind, Except.bind, pure, Except.pure]
+  · rw [Tree.WF_iff]
+    refine ⟨h2, ?_⟩
+    have := hp.length_eq
+    simp only [List.length_cons] at this
+    simp only [Tree.abs] at this hsz ⊢
+    rw [this, h5, hsz]
+  · intro hl
+    simp only at hl ⊢
+    rcases h9 with k | ⟨k, k'⟩
+    · exact k
+    · have := hr2 (by rw [← k]; exact hl)
+      omega
+
+/-- **C11_delete_absent** — `Delete` of an object that is not stored returns false, does not
+panic and changes nothing. -/
+theorem C11_delete_absent [DecidableEq O] [Bounded O] {H : Heur} (t : Tree O) (hI : t.Inv) (o : O)
+    (ho : o ∉ t.abs) : t.delete H o = .ok (t, false) := by
+  obtain ⟨hwf, hr2, hmin, hmax⟩ := hI
+  rw [Tree.WF_iff] at hwf
+  have := (delIn_spec t.minC t.maxC hmin o t.root 0 t.height hwf.1).1 (by rw [scope_zero]; exact ho)
+  simp only [Tree.delete, this, bind, Except.bind, pure, Except.pure]
+
+/-- **C11_delete_present** — `Delete` of a stored object returns true, does not panic,
+re-establishes the invariant (condense, re-insertion of orphaned subtrees at their level, repeated
+root collapse with `height--`) and removes exactly one copy of the object. -/
+theorem C11_delete_present [DecidableEq O] [Bounded O] {H : Heur} (hH : H.InRange) (t : Tree O)
+    (hI : t.Inv) (o : O) (ho : o ∈ t.abs) :
+    ∃ t', t.delete H o = .ok (t', true) ∧ t'.Inv ∧ t'.abs.Perm (t.abs.erase o) ∧
+      t'.size + 1 = t.size ∧ t'.minC = t.minC ∧ t'.maxC = t.maxC := by
+  obtain ⟨hwf, hr2, hmin, hmax⟩ := hI
+  rw [Tree.WF_iff] at hwf
+  obtain ⟨hw, hsz⟩ := hwf
+  have hlev := wfNode_level hw
+  obtain ⟨r, del, d1, d2, d3, d4, d5⟩ :=
+    (delIn_spec t.minC t.maxC hmin o t.root 0 t.height hw).2 (by rw [scope_zero]; exact ho)
+  -- the root keeps at least one entry whenever something has to be re-inserted
+  have hrne : del ≠ [] → r.entries ≠ [] := by
+    intro hdel
+    obtain ⟨d, hd⟩ := List.exists_mem_of_ne_nil _ hdel
+    obtain ⟨hd', a1, a2, _, _⟩ := d3 d hd
+    have : t.root.leaf = false := by
+      cases hl : t.root.leaf with
+      | false => rfl
+      | true => have := hlev.2.2.1.mp hl; omega
+    have := hr2 this
+    intro h0; rw [h0] at d5; simp at d5; omega
+  obtain ⟨t1, g1, g2, g3, g4, g5, g6, g7, g8⟩ :=
+    reinsertAll_spec hH del { t with root := r } hmax d2 d3 hrne
+  simp only at g3 g4 g5 g6 g7 g8
+  -- root of t1 is a leaf or non-empty
+  have ht1ne : t1.root.leaf = false → t1.root.entries ≠ [] := by
+    intro hl
+    rcases g8 with k | ⟨k, k'⟩
+    · intro h0; rw [h0] at k; simp at k
+    · have hrl : r.leaf = false := by rw [← k]; exact hl
+      have : t.root.leaf = false := by rw [← wfNode_leaf_eq hw d2]; exact hrl
+      have := hr2 this
+      intro h0
+      have k'' : r.entries.length ≤ t1.root.entries.length := k'
+      rw [h0] at k''; simp only [List.length_nil] at k''; omega
+  obtain ⟨r2, h2, c1, c2, c3, c4⟩ := collapse_spec t1.maxC t1.root t1.height g2 ht1ne
+  have hperm : (o :: t1.abs).Perm t.abs := by
+    have : (o :: t1.abs).Perm (o :: (r.objs ++ del.flatMap Node.objs)) := List.Perm.cons _ (by simpa [Tree.abs] using g7)
+    exact this.trans d4
+  have hperm' : t1.abs.Perm (t.abs.erase o) := by
+    have := hperm.symm.erase o
+    simpa using this.symm
+  have hlen : t1.abs.length + 1 = t.abs.length := by
+    have := hperm.length_eq; simpa using this
+  refine ⟨{ t1 with root := r2, height := h2, size := t1.size - 1 }, ?_, ⟨?_, c4, by simpa [g4] using hmin, by simpa [g3] using hmax⟩,
+    ?_, ?_, g4, g3⟩
+  · simp only [Tree.delete, d1, g1, c1, bind, Except.bind, pure, Except.pure]
+  · rw [Tree.WF_iff]
+    refine ⟨c2, ?_⟩
+    simp only [Tree.abs] at hlen hsz ⊢
+    rw [c3, g5, hsz]; omega
+  · simpa [Tree.abs, c3] using hperm'
+  · simp only [Tree.abs] at hlen hsz ⊢
+    rw [g5, hsz]; omega
+
+end GeomV.C11
